@@ -5,6 +5,7 @@ import ast
 
 from .. import unitrules
 from ..core import AnalysisError, names_in, norm, walk_no_nested
+from .c08 import _resolve_local
 
 EXPLANATION = (
     "Static analysis of AegeanTools/AeRes.py. R1: unit / width-kind / index "
@@ -193,34 +194,86 @@ def run(ctx):
     ctx.check("C14-R3", mm, "m[x, y] += model", len(acc) == 1,
               "models of different sources must add up", node=mm.node)
     # ---------------------------------------------------------------- R4
-    ctx.rule("C14-R4", "off-image sources `continue` before indexing")
+    ctx.rule("C14-R4", "off-image sources `continue` before indexing: the "
+             "disjunction of the skipping guards that precede the first "
+             "use of the window equals NOT(0 < xo < shape[0] and 0 < yo < "
+             "shape[1]) on every ordering of xo, yo against 0 and the two "
+             "axis lengths")
     loop = [l for l in mm.node.body if isinstance(l, ast.For)]
     if not loop:
         raise AnalysisError("C14: source loop not found")
     body = loop[0].body
-    guards = {}
-    for i, s in enumerate(body):
-        if isinstance(s, ast.If) and any(isinstance(b, ast.Continue)
-                                         for b in s.body):
-            parts = s.test.values if isinstance(s.test, ast.BoolOp) and \
-                isinstance(s.test.op, ast.Or) else [s.test]
-            for part in parts:
-                t = norm(part).replace(" ", "")
-                if t in ("not0<xo<shape[0]", "not(0<xo<shape[0])",
-                         "xo<=0orxo>=shape[0]"):
-                    guards["x"] = i
-                if t in ("not0<yo<shape[1]", "not(0<yo<shape[1])",
-                         "yo<=0oryo>=shape[1]"):
-                    guards["y"] = i
     first_use = min([i for i, s in enumerate(body) if any(
         isinstance(x, ast.Subscript) and norm(x.value) in ("m", "np.mgrid")
         for x in ast.walk(s))] or [len(body)])
-    ctx.check("C14-R4", mm, "guards %s before first indexing (stmt %d)" %
-              (guards, first_use), set(guards) == {"x", "y"} and
-              max(guards.values()) < first_use,
+    skipping = [s for s in body[:first_use] if isinstance(s, ast.If) and
+                any(isinstance(b, ast.Continue) for b in s.body) and
+                names_in(s.test) & {"xo", "yo"}]
+
+    class _Unk(Exception):
+        pass
+
+    def ev(e, env):
+        if isinstance(e, ast.Constant) and isinstance(e.value, (int, float)):
+            return e.value
+        if isinstance(e, ast.Name):
+            if e.id in env:
+                return env[e.id]
+            r = _resolve_local(mm.node, e)
+            if r is not e:
+                return ev(r, env)
+            raise _Unk(e.id)
+        if isinstance(e, ast.Subscript) and norm(e.value) == "shape" and \
+                isinstance(e.slice, ast.Constant):
+            return env["shape"][e.slice.value]
+        if isinstance(e, ast.UnaryOp) and isinstance(e.op, ast.Not):
+            return not ev(e.operand, env)
+        if isinstance(e, ast.UnaryOp) and isinstance(e.op, ast.USub):
+            return -ev(e.operand, env)
+        if isinstance(e, ast.BoolOp):
+            vals = [ev(v, env) for v in e.values]
+            return all(vals) if isinstance(e.op, ast.And) else any(vals)
+        if isinstance(e, ast.BinOp) and isinstance(e.op, (ast.Add, ast.Sub)):
+            a_, b_ = ev(e.left, env), ev(e.right, env)
+            return a_ + b_ if isinstance(e.op, ast.Add) else a_ - b_
+        if isinstance(e, ast.Compare):
+            left = ev(e.left, env)
+            for op, c in zip(e.ops, e.comparators):
+                right = ev(c, env)
+                ok_ = {ast.Lt: left < right, ast.LtE: left <= right,
+                       ast.Gt: left > right, ast.GtE: left >= right,
+                       ast.Eq: left == right,
+                       ast.NotEq: left != right}.get(type(op))
+                if ok_ is None:
+                    raise _Unk(norm(e))
+                if not ok_:
+                    return False
+                left = right
+            return True
+        raise _Unk(norm(e))
+    N0_, N1_ = 10, 20
+    samples = (-1, 0, 0.5, 5, 9.5, 10, 15, 19.5, 20, 21)
+    wrong = None
+    try:
+        for xv in samples:
+            for yv in samples:
+                env = {"xo": xv, "yo": yv, "shape": (N0_, N1_)}
+                skip = any(ev(g_.test, env) for g_ in skipping)
+                want = not (0 < xv < N0_ and 0 < yv < N1_)
+                if skip != want and wrong is None:
+                    wrong = (xv, yv, skip)
+    except _Unk as e:
+        raise AnalysisError("C14-R4: guard not evaluable (%s)" % e)
+    ctx.check("C14-R4", mm, "%d skipping guard(s) before first indexing "
+              "(stmt %d): %s" % (len(skipping), first_use,
+                                 [norm(g_.test, 50) for g_ in skipping]),
+              bool(skipping) and wrong is None,
               "a source centred off the image must be skipped on both axes "
               "(0 < xo < shape[0], 0 < yo < shape[1]) before the window is "
-              "computed", node=loop[0])
+              "computed, and no source centred on the image may be skipped; "
+              "with shape=(10, 20) the guards %s for (xo, yo)=%s" %
+              ("skip" if wrong and wrong[2] else "do not skip",
+               wrong[:2] if wrong else None), node=loop[0])
     # ---------------------------------------------------------------- R5
     ctx.rule("C14-R5", "mask mode: NaN exactly where model >= threshold")
     wh = [s for s in walk_no_nested(mm.node) if isinstance(s, ast.Assign)
@@ -261,17 +314,30 @@ def run(ctx):
     ctx.rule("C14-R6", "column renaming is position-wise user name -> "
              "canonical name")
     ls = prog.func("AeRes.load_sources")
+
+    def as_list(e):
+        if isinstance(e, ast.Name):
+            e = _resolve_local(ls.node, e)
+        return e if isinstance(e, (ast.List, ast.Tuple)) else None
     z = [c for c in walk_no_nested(ls.node) if isinstance(c, ast.Call) and
          norm(c.func) == "zip" and len(c.args) == 2 and
-         all(isinstance(a, ast.List) for a in c.args)]
+         all(as_list(a) is not None for a in c.args)]
+    # the canonical name of each user-column parameter is its default value
+    a_ = ls.node.args
+    pos = a_.posonlyargs + a_.args
+    defaults = {p.arg: d.value for p, d in zip(pos[len(pos) -
+                                                   len(a_.defaults):],
+                                               a_.defaults)
+                if isinstance(d, ast.Constant)}
     ok = False
     if z:
-        user = [norm(e) for e in z[0].args[0].elts]
-        canon = [e.value for e in z[0].args[1].elts
+        user = [norm(e) for e in as_list(z[0].args[0]).elts]
+        canon = [e.value for e in as_list(z[0].args[1]).elts
                  if isinstance(e, ast.Constant)]
         ok = len(user) == len(canon) == 6 and all(
-            u == c + "_col" or (u == "peak_col" and c == "peak_flux")
-            for u, c in zip(user, canon))
+            defaults.get(u) == c for u, c in zip(user, canon)) and \
+            len(set(canon)) == 6
     ctx.check("C14-R6", ls, "rename pairs", ok,
-              "user column k must be renamed to canonical name k",
+              "user column k must be renamed to canonical name k (the "
+              "default of the corresponding *_col parameter)",
               node=z[0] if z else ls.node)
